@@ -119,8 +119,78 @@ Example C05_cyclic_is_excluded :
   end /\ py_run 50 [OEmptyList; OPut 0; OGet 0; OAppend; OStop] = Err EFuel.
 Proof. vm_compute. repeat split; reflexivity. Qed.
 
+(* ---------------------------------------------------------------------------------------------
+   Calls.  PARTIAL (hence the name): for every program both machines accept -- any mix of data with
+   GLOBAL / STACK_GLOBAL / INST / OBJ / NEWOBJ / REDUCE / BINPERSID / BUILD on an object / SETITEM on an
+   object, any length -- evaluating the decompiled program succeeds, its result unfolds to the same
+   tree as the VM's value, and its event log IS the VM's log: same imports (resolves of builtins are
+   implicit in Python), same callee and arguments for every call, same persistent ids, same state
+   applied to the same object, same item assignments, in the same order, with opaque results
+   numbered alike -- under the boolean side conditions
+     defined_before_use n f   every statement of the decompiled program prints within depth n and uses
+                              only variables assigned / names imported by EARLIER statements: the
+                              observable core of finding D15 (a node mutated after an emitted
+                              statement captured it is printed with its final contents; with both
+                              logs rendered against the final heaps this is only visible when the
+                              final contents mention a later variable or import), and
+     distinct_attr_names      finding D14: same attribute name => same module.
+   MISSING (defined_before_use is false on them, so they are outside the theorem; the differential
+   layer-B tie still covers them):
+     - SETITEMS on a stand-in object (`_var.update({...})`: Python merges equal keys and hashes them,
+       the VM assigns item by item),
+     - NEWOBJ_EX with keyword arguments (a call with star-args and double-star keyword arguments),
+     - BUILD / SETITEM(S) applied to a global itself (`_var0 = name`). *)
+Theorem C05_eval_agrees_partial : forall p n f v x,
+  run p = Ok f -> vrun p = Ok v -> vstopped v = Some x ->
+  defined_before_use n f = true -> distinct_attr_names (log v) = true ->
+  exists st r, py_run n p = Ok st /\ presult st = Some r /\
+    same_shape n (heap v) (pheap st) x r = true /\
+    forallb2 (same_event n (heap v) (pheap st)) (filter visible_event (log v)) (plog st) = true.
+Proof. exact eval_agrees. Qed.
+
+(* non-vacuity: from os import system; _var0 = system('x', [..shared..]); _var1 = _var0;
+   _var1.__setstate__({'k': [1]}); result = (_var1, [1]) *)
+Definition call_prog : list op :=
+  [OGlobal "os" "system"; OMark; OConst (CStr "x"); OEmptyList; OPut 1; OConst (CInt 1); OAppend;
+   OTuple; OReduce; OEmptyDict; OConst (CStr "k"); OGet 1; OSetItem; OBuild; OGet 1; OTuple2; OStop].
+Example C05_eval_agrees_nonvacuous :
+  match run call_prog, vrun call_prog, py_run 5 call_prog with
+  | Ok f, Ok v, Ok st =>
+      defined_before_use 5 f = true /\ distinct_attr_names (log v) = true /\
+      vstopped v = Some (VTuple [VObj 0; VRef 0]) /\
+      List.length (log v) = 3 /\ List.length (plog st) = 3 /\
+      presult st = Some (VTuple [VObj 0; VRef 3])
+  | _, _, _ => False
+  end.
+Proof. vm_compute. repeat split; reflexivity. Qed.
+
+(* both side conditions are needed: the faithful model violates the conclusion without them *)
+(* D15: l = []; o = persistent_load(l); l.append(o)  decompiles to
+   `_var0 = UNPICKLER.persistent_load([_var0])`: _var0 is used before it is assigned *)
+Example C05_eval_agrees_refuted_without_D15 :
+  exists p f v st,
+    run p = Ok f /\ vrun p = Ok v /\ py_run 10 p = Ok st /\
+    distinct_attr_names (log v) = true /\ defined_before_use 10 f = false /\
+    forallb2 (same_event 10 (heap v) (pheap st)) (filter visible_event (log v)) (plog st) = false.
+Proof.
+  exists [OEmptyList; ODup; OBinPersId; OAppend; OStop].
+  do 3 eexists. repeat (split; [vm_compute; reflexivity|]). vm_compute. reflexivity.
+Qed.
+
+(* D14: a.f and b.f share the Python name f: the VM calls a.f, the decompiled program calls b.f *)
+Example C05_eval_agrees_refuted_without_D14 :
+  exists p f v st,
+    run p = Ok f /\ vrun p = Ok v /\ py_run 10 p = Ok st /\
+    distinct_attr_names (log v) = false /\ defined_before_use 10 f = true /\
+    forallb2 (same_event 10 (heap v) (pheap st)) (filter visible_event (log v)) (plog st) = false.
+Proof.
+  exists [OGlobal "a" "f"; OGlobal "b" "f"; OPop; OEmptyTuple; OReduce; OStop].
+  do 3 eexists. repeat (split; [vm_compute; reflexivity|]). vm_compute. reflexivity.
+Qed.
+
 Print Assumptions C05_lockstep.
 Print Assumptions C05_result_denotes_value.
 Print Assumptions C05_plain_data_eval.
 Print Assumptions C05_eval_denotes.
 Print Assumptions C05_vm_wellformed.
+Print Assumptions C05_eval_agrees_partial.
